@@ -425,6 +425,22 @@ def case_fit(rng, ctx, rigid=False):
     judge_fit(ctx, rng, fixed, mobile, coords_of(fitted), tr.rotation[0], tr.center_translation[0], tr.target_translation[0],
               mask, tol, rigid=(relation == "rigid"))
     judge_apply_matrix(ctx, rng, tr, Mo, fitted, scale)
+    if mask is not None and not mask.all() and mask.any():
+        # atoms outside the mask may be unresolved (NaN coordinates, the initial value of a new AtomArray): the fit over
+        # the masked atoms is the same
+        f2, m2 = fixed.copy(), mobile.copy()
+        ign = np.nonzero(~mask)[0]
+        f2[ign[: max(1, len(ign) // 2)]] = np.nan
+        m2[ign[len(ign) // 2:]] = np.nan
+        ctx.op("superimpose_unresolved_atoms_outside_mask")
+        ctx.oracle("fit_ignores_unmasked_atoms")
+        try:
+            fitted2, tr2 = struc.superimpose(wrap_form(ffix, f2), wrap_form(fmob, m2), atom_mask=mask)
+        except Exception as e:
+            ctx.fail("fit_ignores_unmasked_atoms", "superimpose(atom_mask=...) with NaN coordinates in atoms outside the mask raised %s: %s"
+                     % (type(e).__name__, e))
+        d = np.abs(coords_of(fitted2).astype(np.float64)[mask] - coords_of(fitted).astype(np.float64)[mask]).max()
+        within(ctx, "fit_ignores_unmasked_atoms", d, 4 * tol + 1e-30, "fitted masked atoms differ when atoms outside the mask are NaN")
     # rmsd() of the library agrees with the float64 value
     ctx.op("rmsd")
     lib = float(struc.rmsd(Fo, fitted))
